@@ -230,7 +230,7 @@ def run(R):
                                 "%s rebinds the module-level name %s at run time: process-wide state written from whichever thread gets there first" % (f.qualname, qual))
     # ---- HOLDERS
     holders = [c for c in repo.all_classes() if "threading.local" in c.ext_bases()]
-    R.need(len(holders) >= 3, "fewer threading.local holders than confirmed by hand (%d < 3)" % len(holders))
+    holder_role_rules(R, "C16.HOLDER")
     for c in holders:
         init = c.methods.get("__init__")
         fields = set()
@@ -315,3 +315,42 @@ def run(R):
 def _alias_of_exempt(module, val):
     s = q.src(val) if val is not None else ""
     return s.endswith("options") or s.endswith("_debug.options")
+
+
+def holder_role_rules(R, rule, only=None):
+    repo = R.repo
+    # the three pieces of per-thread state the property names must each live in a threading.local instance
+    for mod, var, what in (("scheduler", "_state", "the thread's scheduler and active task"), ("batching", "_debug_batch_state", "the debug-batch registry"),
+                           ("profiler", "_state", "the profiler buffer and counter")):
+        if only is not None and mod not in only:
+            continue
+        m = repo.modules[mod]
+        val = repo.var_value(m, var)
+        kind, why = classify_value(R, m, val) if val is not None else ("missing", "no module-level binding")
+        R.check(kind == "tls", rule, "%s.%s:tls" % (mod, var), m.relpath,
+                "%s.%s (%s) is an instance of a threading.local subclass" % (mod, var, what),
+                "%s.%s, which holds %s, is no longer a threading.local instance (%s): every thread sees the same state" % (mod, var, what, why))
+        if kind == "tls":
+            r = repo.resolve_dotted(m, q.call_name(val))
+            hc = r[1]
+            init = hc.methods.get("__init__")
+            init_fields = set(a for r_, a, n in (q.attr_stores(init.node) if init else []) if r_ == "self")
+            if init:
+                for call in q.calls(init.node):
+                    rcv, nm = q.attr_call(call)
+                    if rcv is not None and q.dotted(rcv) == "self" and nm in hc.methods:
+                        init_fields |= set(a for r_, a, n in q.attr_stores(hc.methods[nm].node) if r_ == "self")
+            # every attribute of the holder instance that the module touches exists on a fresh thread
+            used = set()
+            for f in m.all_functions.values():
+                if f.cls is hc:
+                    continue
+                for d, a, n in q.attr_loads(f.node) + q.attr_stores(f.node):
+                    if d == var:
+                        used.add(a)
+            methods = set(hc.methods)
+            missing = sorted(a for a in used if a not in init_fields and a not in methods)
+            R.check(not missing, rule, "%s.%s:fields" % (mod, var), m.relpath,
+                    "every field of %s.%s the module uses (%s) is created by __init__, which threading.local runs in each thread" % (mod, var, ", ".join(sorted(used))),
+                    "%s.%s.%s is used but not created in %s.__init__: it exists only in the thread that happened to assign it (import-time initialisation covers the "
+                    "importing thread only) - other threads get AttributeError or share nothing" % (mod, var, "/".join(missing), hc.name))
